@@ -96,8 +96,13 @@ def run(R):
         if simple:
             # the planner of `replace`, with a line filter: dropped lines are still lines of the file, the preview has to number
             # the others as the file does
-            sr = H.ask({"op": "simple_plan_tree", "tree": tj, "pattern": core.hx(search), "replacement": core.hx(replace), "regex": False,
+            # every other time in regex mode, with a pattern that is not literally the matched text (old[_-]name matches old_name and
+            # old-name): the hunk's `variant` is then the pattern and its `content` the matched text
+            use_regex = (i // 4) % 2 == 1
+            pat = search.replace("_", "[_-]") if use_regex else search
+            sr = H.ask({"op": "simple_plan_tree", "tree": tj, "pattern": core.hx(pat), "replacement": core.hx(replace), "regex": use_regex,
                         "exclude_matching_lines": ["^plain", "é", "^\\t", "^first"][(i // 4) % 4]})
+            stats["replace_planner_regex"] = stats.get("replace_planner_regex", 0) + use_regex
             if sr.get("ok"):
                 sr["plan"]["paths"] = []
             stats["replace_planner_filtered"] = stats.get("replace_planner_filtered", 0) + 1
